@@ -148,28 +148,60 @@ func ruleP08LoopExit(p *Prog, r *Report) {
 		return
 	}
 	bc := resultOf(cs[0], 1)
-	okExit := false
-	n := 0
+	if bc == nil {
+		r.bad(rule, "mapParse:exit", p.instrPos(cs[0]), "the byte count of ParseBlock is discarded (the loop would not terminate)")
+		return
+	}
+	// The place where a parsed block is taken over (the append of the block) is reached exactly
+	// under "consumed != 0" (spelled ==, !=, >, >=, <, <= with 0 or 1, in either polarity, alone or
+	// inside && / ||): no other restriction on the byte count, and the restriction is present.
+	var takeOver *ssa.BasicBlock
 	eachInstr(mp, func(in ssa.Instruction) {
-		bo, ok := in.(*ssa.BinOp)
-		if !ok || bc == nil || !sameValue(bo.X, bc) {
-			return
-		}
-		k, isK := constInt(bo.Y)
-		if !isK {
-			return
-		}
-		n++
-		if (bo.Op == token.EQL && k == 0) || (bo.Op == token.LEQ && k == 0) || (bo.Op == token.LSS && k == 1) {
-			okExit = true
-		} else {
-			r.bad(rule, "mapParse:exit", p.pos(bo.Pos()), "mapParse stops when a block consumed %s %d bytes: a text whose block has that size is silently dropped (accepted as empty)", bo.Op, k)
+		if c, ok := in.(*ssa.Call); ok {
+			if bi, isB := c.Call.Value.(*ssa.Builtin); isB && bi.Name() == "append" && isSliceOf(c.Type(), "Block") && takeOver == nil {
+				takeOver = c.Block()
+			}
 		}
 	})
-	if n == 0 {
-		r.bad(rule, "mapParse:exit", p.pos(mp.Pos()), "mapParse does not test whether ParseBlock consumed anything (the loop would not terminate)")
-	} else if okExit {
-		r.ok(rule, "mapParse:exit", p.instrPos(cs[0]), "the loop ends exactly when nothing was consumed")
+	if takeOver == nil {
+		r.undecided(rule, "mapParse:exit", p.pos(mp.Pos()), "the append of the parsed block was not found in mapParse")
+		return
+	}
+	nonZero, other := false, ""
+	for _, g := range guardsOf(takeOver) {
+		bo, ok := g.Cond.(*ssa.BinOp)
+		if !ok {
+			continue
+		}
+		x, y, op := bo.X, bo.Y, bo.Op
+		if sameValue(y, bc) {
+			x, y = y, x
+			op = map[token.Token]token.Token{token.LSS: token.GTR, token.GTR: token.LSS, token.LEQ: token.GEQ, token.GEQ: token.LEQ, token.EQL: token.EQL, token.NEQ: token.NEQ}[op]
+		}
+		if !sameValue(x, bc) {
+			continue
+		}
+		k, isK := constInt(y)
+		if !isK {
+			other = bo.String()
+			continue
+		}
+		if !g.Pol {
+			op = map[token.Token]token.Token{token.LSS: token.GEQ, token.GEQ: token.LSS, token.GTR: token.LEQ, token.LEQ: token.GTR, token.EQL: token.NEQ, token.NEQ: token.EQL}[op]
+		}
+		switch {
+		case op == token.NEQ && k == 0, op == token.GTR && k == 0, op == token.GEQ && k == 1:
+			nonZero = true
+		default:
+			other = fmt.Sprintf("consumed %s %d", op, k)
+		}
+	}
+	if other != "" {
+		r.bad(rule, "mapParse:exit", p.pos(mp.Pos()), "a parsed block is taken over only if %s: a text whose block has another size is silently dropped (accepted as empty)", other)
+	} else if !nonZero {
+		r.bad(rule, "mapParse:exit", p.pos(mp.Pos()), "mapParse does not stop when ParseBlock consumed nothing (the loop would not terminate)")
+	} else {
+		r.ok(rule, "mapParse:exit", p.instrPos(cs[0]), "a block is taken over exactly when something was consumed; otherwise the loop ends")
 	}
 }
 
